@@ -51,6 +51,27 @@ fn main() {
             }
             runner::replay_file(&args[2])
         }
+        "fuzz-bytes" => {
+            // hv fuzz-bytes <target> <file>: one input of a fuzz target through the same decoding and oracle
+            if args.len() < 4 {
+                usage();
+            }
+            let Some((_, _, f)) = hv::fuzzentry::TARGETS.iter().find(|t| t.0 == args[2]) else {
+                eprintln!("unknown fuzz target {}", args[2]);
+                std::process::exit(2);
+            };
+            let data = std::fs::read(&args[3]).expect("cannot read the input file");
+            match f(&data) {
+                Ok(()) => {
+                    println!("ok");
+                    0
+                }
+                Err(m) => {
+                    println!("FAIL: {m}");
+                    1
+                }
+            }
+        }
         "list" => {
             for p in hv::props::all() {
                 for s in (p.subs)() {
